@@ -264,6 +264,20 @@ def sample_obs(check, n=4):
                     "solver_s": round(ob.secs, 3), "kernels": srcs, "smt2": txt[:3000]})
         if len(out) >= n:
             break
+    if not out:
+        # everything folded before the solver (structurally identical encodings): show such cases as they are
+        seen = set()
+        for ob in check.obs:
+            fam = ob.name.split(":")[0]
+            if ob.status != "unsat" or fam in seen or ob.fn is None:
+                continue
+            seen.add(fam)
+            srcs = [check.K[k].kernel.line() for k in ob.kernels if k in check.K][:4]
+            out.append({"obligation": ob.name, "key": ob.key, "expect": ob.expect, "status": ob.status, "route": ob.route,
+                        "note": ob.note, "kernels": srcs,
+                        "smt2": "(folded to false by the term constructors before any solver was called: both sides are the identical term)"})
+            if len(out) >= n:
+                break
     return out
 
 
